@@ -1138,18 +1138,32 @@ pub fn run_length_mismatch(cover: &mut Cover, out: &mut Vec<Violation>) {
 	};
 	let mut idx = 0usize;
 	for n in 0usize..=4 {
-		// every composition of n items into blocks
-		for cuts in 0u32..(1 << n.saturating_sub(1)) {
+		// every composition of n items into blocks, every block plain (positive count) or sized
+		// (negative count followed by the byte size) - all blocks plain, all sized, and alternating
+		for (cuts, sized_mask) in (0u32..(1 << n.saturating_sub(1))).flat_map(|c| [0u32, u32::MAX, 0x5555_5555, 0xaaaa_aaaa].into_iter().map(move |m| (c, m))) {
+			if n == 0 && sized_mask != 0 {
+				continue;
+			}
 			let mut bytes = Vec::new();
 			let mut start = 0;
+			let mut block_no = 0;
 			for i in 0..n {
 				let last_of_block = i + 1 == n || cuts & (1 << i) != 0;
 				if last_of_block {
-					bytes.extend(zz((i + 1 - start) as i64));
+					let mut items = Vec::new();
 					for k in start..=i {
-						bytes.extend(zz(10 + k as i64));
+						items.extend(zz(10 + k as i64));
 					}
+					let count = (i + 1 - start) as i64;
+					if sized_mask & (1 << block_no) != 0 {
+						bytes.extend(zz(-count));
+						bytes.extend(zz(items.len() as i64));
+					} else {
+						bytes.extend(zz(count));
+					}
+					bytes.extend(items);
 					start = i + 1;
+					block_no += 1;
 				}
 			}
 			bytes.extend(zz(0));
@@ -1164,18 +1178,18 @@ pub fn run_length_mismatch(cover: &mut Cover, out: &mut Vec<Violation>) {
 							0 => guarded(|| serde_avro_fast::from_datum_slice::<$t>(&bytes, &schema).map(|v| format!("{v:?}")).map_err(|e| e.to_string())),
 							p => guarded(|| serde_avro_fast::from_datum_reader::<_, $t>(ChunkedBufRead::uniform(&bytes, p - 1), &schema).map(|v| format!("{v:?}")).map_err(|e| e.to_string())),
 						};
-						let what = |got: String| format!("target {} path {}: array of {n} items in blocks (cut mask {cuts:#b}) followed by b = 7, bytes [{}]: {got}", $name, ["slice", "reader (one chunk)", "reader (1-byte chunks)"][path], hex(&bytes));
+						let what = |got: String| format!("target {} path {}: array of {n} items in blocks (cut mask {cuts:#b}, sized-block mask {:#b}) followed by b = 7, bytes [{}]: {got}", $name, ["slice", "reader (one chunk)", "reader (1-byte chunks)"][path], sized_mask & 0xf, hex(&bytes));
 						match r {
 							Out::Ok(v) if n == 2 => {
 								if !v.contains("10, 11") || !v.contains("b: 7") {
 									violation(out, FAM, idx, &text, "typed-de-differs", what(format!("decoded to {v}")));
 								}
-								cover.nontrivial.insert(hash64(&("mismatch-ok", n, cuts)));
+								cover.nontrivial.insert(hash64(&("mismatch-ok", n, cuts, sized_mask)));
 							}
 							Out::Ok(v) => violation(out, FAM, idx, &text, "typed-length-mismatch-accepted", what(format!("a 2-element target was filled from an array of {n}: decoded to {v}"))),
 							Out::Err(e) if n == 2 => violation(out, FAM, idx, &text, "typed-de-err", what(format!("failed: {e}"))),
 							Out::Err(_) => {
-								cover.nontrivial.insert(hash64(&("mismatch-err", n, cuts)));
+								cover.nontrivial.insert(hash64(&("mismatch-err", n, cuts, sized_mask)));
 							}
 							Out::Panic(e) => violation(out, FAM, idx, &text, "typed-de-panic", what(format!("panicked: {e}"))),
 						}
